@@ -31,7 +31,7 @@ claim("C04", "Theorems C04_verdict / C04_pipeline (whole operation: [$not X, Y] 
 claim("C05", "Theorem C05_front_end (YAML front end: build + handler chains give definition at the first occurrence of a capture name in document order, reference afterwards), C05_compile / C05_pipeline (compileTree on the YAML of a capture-spine rule = comp of the typed rule, renumbering is the identity; run on the stream = the denotation); C05_spine: environment-threaded master theorem for the capture spine (engine groups by registration index mirror "
       "bindings by name; first occurrence binds the whole instruction body / whole non-empty operand, later occurrences match only "
       "identical text, names independent), C05_invariant, clause theorems, C05_twice; counter-example theorems for the register "
-      "families (first occurrences: findings D5, D15) and, for their LATER occurrences, C05_register_call / C05_register_call_field (Properties/C05Register.lean: the compiled occurrence fills an operand field exactly when the field is the name the x86 table regNameAt gives for the bound family text at the width the suffix selects)." + COMMON, "DESIGN.md 0.2, 7 C05",
+      "families (first occurrences: findings D5, D15; what they do right is C05_register_def_binds - on any name of a register of the family they bind the family text - and C05_register_pair in Properties/C05RegisterDef.lean: bound on the name of register g, the later occurrence with the suffix of width w fills a field iff the field is the name of the SAME register g at width w) and, for their LATER occurrences, C05_register_call / C05_register_call_field (Properties/C05Register.lean: the compiled occurrence fills an operand field exactly when the field is the name the x86 table regNameAt gives for the bound family text at the width the suffix selects)." + COMMON, "DESIGN.md 0.2, 7 C05",
       "References inside $or/$not/$and_any_order/times: correspondence only. Register-family captures (D5, D15) and captures under "
       "operand-level operators (D13) violate the property: known findings, proved about the model by decide +kernel and replayed on the code.")
 claim("C06", "Theorems C06_rx (language of the compiled $deref = the specification's texts, all 8 field combinations, on any input), "
